@@ -105,11 +105,99 @@ def body(table, sb):
     return ok
 
 
+LIMIT_KINDS = ["chains", "residues", "atoms"]
+
+
+def limits_table(kind, a, b):
+    """(rows, must) for the refusal half: rows = [(group, chain, resnum, atom name, residue name)], must = 'fit' | 'refuse' | 'either'"""
+    rows = []
+    if kind == 0:       # 61..64 chains with two-character ids, one atom each
+        n = 61 + a
+        ids = [x + y for x in "ABCDEFGH" for y in "abcdefgh"][:n]
+        rows = [("ATOM", c, 1, "P", "G") for c in ids]
+        return rows, ("fit" if n <= 62 else "refuse")
+    if kind == 1:       # one chain of 9 998..10 001 single-atom residues numbered from 5 000 (so numbers above 9 999 occur)
+        n = 9998 + a
+        rows = [("ATOM", "AA", 5000 + i, "P", "G") for i in range(n)]
+        return rows, ("fit" if n <= 9999 else "refuse")
+    # kind 2: two chains, 99 996 + a atoms (a = 0..2: atoms + 2 chains = 99 998..100 000), b = 0: chains contiguous, b = 1: the last 60 atoms alternate between the chains
+    n = 99996 + a
+    tail = 60 if b else 0
+    half = (n - tail) // 2
+    for ci, c in enumerate(("AA", "BB")):
+        cnt = half if ci == 0 else (n - tail - half)
+        for i in range(cnt):
+            rows.append(("ATOM", c, 1 + i // 20, "C%d" % (i % 20), "G"))
+    for w in range(tail):
+        rows.append(("HETATM", "AA" if w % 2 == 0 else "BB", 7000 + w, "O", "HOH"))
+    return rows, ("refuse" if n + 2 > 99999 else "either")
+
+
+def body_limits(kind, a, b):
+    """the refusal half on tables at the PDB limits (real pandas, natively)"""
+    from harness.e1_common import log, known_keys
+    import warnings
+    warnings.filterwarnings("ignore")
+    from rnapolis.parser_v2 import parse_cif_atoms, fit_to_pdb, write_pdb, parse_pdb_atoms
+    rows, must = limits_table(kind, a, b)
+    attrs = ["group_PDB", "id", "type_symbol", "label_atom_id", "label_alt_id", "label_comp_id", "label_asym_id", "label_entity_id", "label_seq_id",
+             "pdbx_PDB_ins_code", "Cartn_x", "Cartn_y", "Cartn_z", "occupancy", "B_iso_or_equiv", "pdbx_formal_charge", "auth_seq_id", "auth_comp_id",
+             "auth_asym_id", "auth_atom_id", "pdbx_PDB_model_num"]
+    text = "\n".join(["data_verif", "loop_"] + ["_atom_site." + x for x in attrs] +
+                     [f"{g} {i} {nm[0]} {nm} . {rn} {c} 1 {r} ? {(i % 9000) * 0.1:.3f} {(i % 7000) * 0.1:.3f} {(i % 5000) * 0.1:.3f} 1.00 0.00 ? {r} {rn} {c} {nm} 1"
+                      for i, (g, c, r, nm, rn) in enumerate(rows, start=1)]) + "\n#\n"
+    problems = []
+    n = len(rows)
+    try:
+        df = parse_cif_atoms(text)
+        if len(df) != n:
+            problems.append(f"parse_cif_atoms returned {len(df)} of {n} atoms")
+        try:
+            out = fit_to_pdb(df)
+        except ValueError as e:
+            out = None
+            if must == "fit":
+                problems.append(f"a table that has a fit was refused: {e}")
+        if out is not None:
+            if must == "refuse":
+                problems.append(f"a table without a fit ({LIMIT_KINDS[kind]}, {n} atoms) was not refused")
+            ser = out["serial"].astype(int).tolist()
+            ch = out["chainID"].astype(str).tolist()
+            rs = out["resSeq"].astype(int).tolist()
+            if max(ser) > 99999 or min(ser) < 1 or any(len(c) != 1 for c in set(ch)) or max(rs) > 9999 or min(rs) < -999:
+                problems.append(f"fitted table violates PDB limits: max serial {max(ser)}, chains {sorted(set(ch))[:5]}..., residue numbers {min(rs)}..{max(rs)}")
+            if any(x >= y for x, y in zip(ser, ser[1:])):
+                problems.append("serials are not increasing")
+            if out["name"].astype(str).tolist() != [r[3] for r in rows] or [round(float(v), 3) for v in out["x"].tolist()[:50]] != [round((i % 9000) * 0.1, 3) for i in range(1, min(n, 50) + 1)]:
+                problems.append("atom order / names / coordinates changed")
+            fwd, bwd, rf, rb = {}, {}, {}, {}
+            for (g, c, r, nm, rn), c2, r2 in zip(rows, ch, rs):
+                if fwd.setdefault(c, c2) != c2 or bwd.setdefault(c2, c) != c:
+                    problems.append(f"chain renaming is not one-to-one at {c} -> {c2}")
+                    break
+                if rf.setdefault((c, r), (c2, r2)) != (c2, r2) or rb.setdefault((c2, r2), (c, r)) != (c, r):
+                    problems.append(f"residue renaming does not preserve grouping at {(c, r)} -> {(c2, r2)}")
+                    break
+            if n <= 20000:
+                back = parse_pdb_atoms(write_pdb(out))
+                if len(back) != n:
+                    problems.append(f"written and re-read table has {len(back)} of {n} atoms")
+    except Exception as e:  # noqa: BLE001
+        problems.append(f"exception {type(e).__name__}: {e}")
+    problems = sorted(set(problems))
+    keys = ["parser_v2.fit_to_pdb:limits"] if problems else []
+    ok = all(k in known_keys(PID) for k in keys)
+    log({"p": ["limits", kind, a, b], "problems": problems[:3], "keys": keys, "kind": "limits"})
+    return ok
+
+
 def replay(rec):
     import harness.e1_common as ec
     saved = ec.known_keys
     ec.known_keys = lambda pid: set()
     try:
+        if rec["p"][0] == "limits":
+            return body_limits(*rec["p"][1:])
         # the enumeration runs many tables in one process: a failure may need an earlier call (state kept between calls).  The table is
         # evaluated alone and after every 2-atom table of the family as predecessor, each time in a forked copy of this fresh interpreter.
         import os
@@ -171,15 +259,25 @@ def run(rep, tier):
                                [f"{nat} atoms; chain in {CHAINS}, residue number in {NUMS}, insertion code in {ICODES}, serial base in {SERIAL_BASE}",
                                 "chains and residues contiguous"], expected=None, chunksize=16)
         parts.append(pt)
+    # refusal half: tables at the limits; the parameter space is one formula, enumerated by AllSAT
+    import z3
+    K, A, B_ = z3.Int("kind"), z3.Int("a"), z3.Int("b")
+    cons = [K >= 0, K <= 2, A >= 0, A <= 3, B_ >= 0, B_ <= 1, z3.Implies(K < 2, B_ == 0), z3.Implies(K == 2, A <= (0 if tier == "quick" else 2))]
+    models, nq, dt = allsat.allsat([K, A, B_], cons)
+    rep.add(transitions=nq, solver_s=dt)
+    parts.append(allsat.run_family("limits", "harness.c10", "body_limits", [tuple(m) for m in models],
+                                   ["61..64 two-character chains | 9 998..10 001 residues in one chain | 99 996" + ("" if tier == "quick" else "..99 998") + " atoms in two chains, contiguous or alternating tail"],
+                                   expected=(10 if tier == "quick" else 14), chunksize=1))
     e1.collect(rep, parts, "harness.c10")
     rep.add(functions_encoded=["parser_v2.can_write_pdb", "parser_v2.fit_to_pdb", "parser_v2.write_pdb", "parser_v2.parse_pdb_atoms", "parser_v2.parse_cif_atoms",
                                "tertiary_v2.Structure.residues"],
             bounds={"tables": "2-3 (quick) / 2-4 atoms; values on both sides of every PDB limit (one- and multi-character chain ids, residue numbers 5 / 9999 / 12000, "
-                    "serials crossing 99999)", "outside": "the refusal half (more than 62 chains / 99 999 atoms / 9 999 residues per chain), PDB-format input tables, "
+                    "serials crossing 99999)", "limits": "61-64 chains, 9 998-10 001 residues in a chain, 99 996 (thorough: ..99 998) atoms in two chains with contiguous or alternating chains", "outside": "PDB-format input tables, "
                     "everything pandas does on larger frames"},
             engines=["z3 AllSAT over the table formula (concretising mode); native execution with real pandas and mmcif"], exhaustive=True,
             rule="states = distinct tables (AllSAT models); transitions = executions + AllSAT queries; obligation = family",
             stubs=[])
     rep.assume("every table is fitted in a process that has fitted other tables before (pool workers); a counterexample is replayed in a fresh interpreter, "
                "alone and after every 2-atom table of the family as predecessor")
-    rep.assume("partial: the renaming half on small tables; a ValueError on a 2-4 atom table counts as a violation (such a table always has a fit)")
+    rep.assume("partial: the renaming half on small tables; a ValueError on a 2-4 atom table counts as a violation (such a table always has a fit)",
+               "refusal half: more than 62 chains, more than 9 999 residues in a chain, atoms + chains above 99 999 must be refused; 62 chains / 9 999 residues must be fitted")
